@@ -57,8 +57,16 @@ void parallel_range_thread_fn(
     std::atomic<IntT>& result_value,
     IntT end_value,
     size_t thread_num) {
-  IntT v;
-  while ((v = current_value.fetch_add(1)) < end_value) {
+  for (;;) {
+    // Claim the next value only if it is in range. (An unconditional fetch_add
+    // would push the cursor past end_value by up to one step per thread, which
+    // wraps around and re-issues values if end_value is near the IntT maximum.)
+    IntT v = current_value.load();
+    while ((v < end_value) && !current_value.compare_exchange_weak(v, static_cast<IntT>(v + 1))) {
+    }
+    if (v >= end_value) {
+      break;
+    }
     if (fn(v, thread_num)) {
       result_value = v;
       current_value = end_value;
@@ -122,8 +130,15 @@ void parallel_range_blocks_thread_fn(
     IntT end_value,
     IntT block_size,
     size_t thread_num) {
-  IntT block_start;
-  while ((block_start = current_value.fetch_add(block_size)) < end_value) {
+  for (;;) {
+    // See the comment in parallel_range_thread_fn about claiming in range only
+    IntT block_start = current_value.load();
+    while ((block_start < end_value) &&
+        !current_value.compare_exchange_weak(block_start, static_cast<IntT>(block_start + block_size))) {
+    }
+    if (block_start >= end_value) {
+      break;
+    }
     IntT block_end = block_start + block_size;
     for (IntT z = block_start; z < block_end; z++) {
       if (fn(z, thread_num)) {
